@@ -285,7 +285,7 @@ fn query_atom(ctx: &mut Ctx, rel: &str, arity: usize, dom: &[i64]) -> Atom {
 
 /// `.why` for every answer of a query over every derived relation (plus one stored relation now and
 /// then), and direct `build_proof_tree` calls with small depth limits.
-pub fn gen_why(ctx: &mut Ctx, p: &str) -> Vec<String> { let n = ctx.budget(420, 6000); gen_why_n(ctx, p, n) }
+pub fn gen_why(ctx: &mut Ctx, p: &str) -> Vec<String> { let n = ctx.budget(420, 3000); gen_why_n(ctx, p, n) }
 
 pub fn gen_why_n(ctx: &mut Ctx, p: &str, n: usize) -> Vec<String> {
     let mut out = vec![];
@@ -321,8 +321,8 @@ pub fn gen_why_n(ctx: &mut Ctx, p: &str, n: usize) -> Vec<String> {
 /// the tuples that are true and whose reference depth is within the limit), and long-chain programs
 /// whose derivations reach the handler's limit of 50.
 pub fn gen_complete(ctx: &mut Ctx, p: &str) -> Vec<String> {
-    let mut out = gen_why_n(ctx, p, ctx.budget(220, 3000));
-    let n = ctx.budget(60, 1000);
+    let mut out = gen_why_n(ctx, p, ctx.budget(220, 1500));
+    let n = ctx.budget(60, 300);
     for i in 0..n {
         let prog = gen_prog(ctx, i * 5 + (i % 2)); // directed shapes twice as often
         let items = items_wire(&prog);
@@ -366,7 +366,7 @@ pub fn gen_complete(ctx: &mut Ctx, p: &str) -> Vec<String> {
 
 /// `.why_not` for every candidate tuple over the domain (plus one outside value) of every derived relation.
 pub fn gen_whynot(ctx: &mut Ctx, p: &str) -> Vec<String> {
-    let n = ctx.budget(150, 2500);
+    let n = ctx.budget(150, 350);
     let mut out = vec![];
     for i in 0..n {
         let prog = gen_prog(ctx, i);
